@@ -39,6 +39,8 @@ pub struct Subject {
     pub prefix_spec: bool,
     /// Derive-generated sync block: check the per-call accounting rule.
     pub sync_check: bool,
+    /// Added to the horizon of the search (native-type subjects are costly).
+    pub horizon_delta: i32,
     /// Skip the "retires when inputs end" clause (documented `nevereof`-style
     /// blocks still have to wait on an ended input, so this is rarely needed).
     pub no_retire_check: bool,
@@ -231,6 +233,9 @@ fn verdict_oracle(sub: &Subject, e: &Exec, ids_in: &[usize], ids_out: &[usize]) 
             if all_in_closed && !last.ins.is_empty() {
                 match &last.verdict {
                     Verdict::Eof => {}
+                    // Both runners ask the block's own eof() after a wait
+                    // verdict.
+                    Verdict::WaitStream { .. } | Verdict::WaitFunc if last.eof => {}
                     Verdict::WaitStream { id, closed, .. } => {
                         let on_input = ids_in.contains(id);
                         if !(on_input && *closed) && (ids_in.contains(id) || ids_out.contains(id)) {
@@ -549,11 +554,12 @@ pub fn explore(rep: &mut Report, sub: &Subject, cfg: &EnvCfg) {
         let probe = (sub.build)(start);
         let m = menu(sub, &probe, prop == "C09");
         drop(probe);
+        let h = (cfg.horizon as i32 + sub.horizon_delta).max(2) as usize;
         let seqs = if sub.infinite_source {
             let mm: Vec<Act> = m.iter().copied().filter(|a| matches!(a, Act::Release(..) | Act::Nop)).collect();
-            sequences(&mm, cfg.horizon + 1)
+            sequences(&mm, h + 1)
         } else {
-            sequences(&m, cfg.horizon)
+            sequences(&m, h)
         };
         for acts in &seqs {
             let inst = (sub.build)(start);
@@ -611,7 +617,7 @@ pub fn explore(rep: &mut Report, sub: &Subject, cfg: &EnvCfg) {
                     fail(rep, "C08", &c, m, start, acts);
                 }
             }
-            if rep.samples.len() < 5 && acts.len() == cfg.horizon && rep.evaluations % 997 == 3 {
+            if rep.samples.len() < 5 && acts.len() >= 2 && rep.evaluations % 997 == 3 {
                 rep.sample(json!({"subject": sub.id(), "start": start.to_json(), "actions": acts_json(acts),
                     "verdicts": verdicts}));
             }
